@@ -248,8 +248,16 @@ def inject(src, fnspecs, fname, warnings):
         edits.append((f.body_close, f.body_close, inj('/*@ENDFN %s@*/' % tag)))
         if 'external_body' in sp.flags:
             edits.append((f.item_start, f.item_start, inj('#[verifier::external_body] ')))
+        lost_names = set()  # ghost variables declared by parts that had to be skipped
         for kind, arg, text, ln in sp.parts:
             text = text.rstrip('\n')
+            if lost_names and kind not in ('ret', 'sig', 'attr'):
+                hit = [nm for nm in lost_names if re.search(r'\b%s\b' % re.escape(nm), text)]
+                if hit:
+                    # this part speaks about ghost variables that were never declared (their hint lost its anchor): skip it too
+                    warnings.append('part %s %s of %s uses ghost variable(s) %s of a skipped hint: skipped' % (kind, arg, sp.path, ','.join(sorted(hit))))
+                    lost_names.update(re.findall(r'let ghost (?:mut )?(\w+)', text))
+                    continue
             if kind == 'ret':
                 # name the return value
                 arrow = _find_arrow(m, f)
@@ -304,6 +312,7 @@ def inject(src, fnspecs, fname, warnings):
                     off += len(line) + 1
                 if found is None:
                     warnings.append('hint anchor %r (#%d) of %s not found: hint skipped' % (mm2.group(1), nth, sp.path))
+                    lost_names.update(re.findall(r'let ghost (?:mut )?(\w+)', text))
                     continue
                 pos = found[0] if kind == 'hint_before' else found[1]
                 if kind == 'hint_before':
